@@ -551,8 +551,8 @@ def run_cases(ctx, driver, mod, cases):
                 json.dump(c, f, default=repr)
             # every third case (a function of the case alone, so a replay does the same) runs on objects
             # "with a history": see harness/warm.py
-            warm.ENABLED = (zlib.crc32(json.dumps(c, sort_keys=True, default=repr).encode()) % 3 == 0) \
-                and os.environ.get("VERIF_NO_WARM") != "1"
+            warm.ENABLED = (c.get("warm") is True or zlib.crc32(json.dumps(c, sort_keys=True, default=repr).encode()) % 3 == 0) \
+                and os.environ.get("VERIF_NO_WARM") != "1"          # (a directed case may ask for a history: "warm": true)
             warm.GROUPED = warm.ENABLED and bool(getattr(mod, "WARM_GROUPED", False)) and \
                 (not hasattr(mod, "warm_grouped") or bool(mod.warm_grouped(c)))
             if warm.ENABLED:
